@@ -44,6 +44,8 @@ var vpC06Benign = []string{"a", "sid", "abc123", "v", "x=y", "session", "1", "to
 var vpC06Hostile = []string{";", "; ", "=", "\"", " ", "\r\n", "\n", "\r", ",", "\\", "\t", "\x00", "\xc3\xa9", "\xff",
 	"; Secure", "; HttpOnly", "; Domain=evil.example", "; Path=/evil", "; Max-Age=0", "; max-age=99",
 	"; Expires=Thu, 01 Jan 1970 00:00:00 GMT", "; SameSite=None", "; SameSite", "; Partitioned", ";Secure;HttpOnly",
+	// percent-encoded separators: Cookie.SetPath percent-decodes its argument, so these become real ones
+	"%3B Secure", "%3b%20HttpOnly", "%3B Domain=evil.example", "%3B%20SameSite=None", "%3BPartitioned", "%0d%0aSet-Cookie: evil=1", "%0A", "%22", "%3B",
 	"\r\nSet-Cookie: evil=1", "; evil=2", ";evil=3", "\"; evil=4; x=\"", "\n; Secure", "\r; Domain=evil.example", " ;  Secure "}
 
 type vpC06Arg struct {
@@ -90,7 +92,7 @@ func vpC06GenArg(t *rapid.T, label string, kind string) vpC06Arg {
 	if rapid.IntRange(0, 19).Draw(t, label+"_rawp") == 0 {
 		b = append(b, rapid.SliceOfN(rapid.Byte(), 1, 5).Draw(t, label+"_raw")...)
 	}
-	return vpC06Arg{s: string(b), hot: bytes.ContainsAny(b, ";\r\n\"")}
+	return vpC06Arg{s: string(b), hot: bytes.ContainsAny(b, ";\r\n\"") || bytes.Contains(bytes.ToLower(b), []byte("%3b")) || bytes.Contains(bytes.ToLower(b), []byte("%0"))}
 }
 
 // vpC06Wild: a matches pattern b where CR, LF and ';' in b stand for "zero or one arbitrary byte"
